@@ -320,7 +320,23 @@ def run(prog, chk):
     # ------------------------------------------------------------------ f
     # every `*(dest++) = ...` consumes a source byte: right side reads `*(src++)` or `*(end++)`
     wr = [s for s in q.stores(sc) if re.match(r"^\*%s\+\+$" % re.escape(DST), q.no_casts(sc.r(s.lhs)))]
-    badw = [s for s in wr if not re.match(r"^\*(%s)\+\+$" % "|".join(re.escape(x) for x in in_curs), q.no_casts(sc.r(s.rhs)))]
+    # ... in the same statement (`*dest++ = *src++`) or by an advance of an input cursor on every path to the next output write
+    alt_ = "|".join(re.escape(x) for x in in_curs)
+    adv_ = []
+    for s_ in q.stores(sc):
+        lt_ = q.no_casts(sc.r(s_.lhs))
+        if lt_ not in in_curs:
+            continue
+        if s_.op in ("++", "+=") or (s_.op == "=" and s_.rhs is not None and re.fullmatch(r"\(?(%s) \+ [1-9]\d*\)?" % alt_, q.no_casts(sc.r(s_.rhs)))):
+            adv_.append(s_.node)
+    advp_ = q.pos_of(sc, adv_)
+    wrp_ = q.pos_of(sc, [s.node for s in wr])
+    badw = []
+    for s in wr:
+        if re.match(r"^\*(%s)\+\+$" % alt_, q.no_casts(sc.r(s.rhs))):
+            continue
+        if sc.node_pos(s.node) is None or sc.find_path(sc.node_pos(s.node), wrp_, avoid=advp_) is not None:
+            badw.append(s)
     # the String the output cursor points into is constructed with the input's length
     res = [n for n in sc.nodes if n["k"] == "DeclStmt" and any(d.get("t") == "String" for d in n["decls"])]
     sized = bool(res) and ("%s.length()" % sc.params[0]["n"]) in sc.r(res[0]["i"])
@@ -376,9 +392,14 @@ def string_mode_automaton(chk, rid, sc):
         c = b.get("cond")
         if c is None or len(b["succ"]) != 2:
             continue
-        t = q.no_casts(sc.r(c))
-        for op, k in (("!=", 1), ("==", 0)):
-            if t == "(*%s %s '\"')" % (cur, op) and b["succ"][k] is not None:
+        # the test that tells a quote from any other byte under the cursor, however it is spelled (`*src != '"'`, a snapshot local ...)
+        vq_ = fin.eval_expr(sc, c, {"*" + cur: 0x22, cur + "[0]": 0x22})
+        vo_ = fin.eval_expr(sc, c, {"*" + cur: 0x61, cur + "[0]": 0x61})
+        vs_ = fin.eval_expr(sc, c, {"*" + cur: 0x2f, cur + "[0]": 0x2f})
+        if vq_ is None or vo_ is None or vs_ is None or bool(vq_) == bool(vo_) or bool(vo_) != bool(vs_):
+            continue
+        for k in ((0,) if vq_ else (1,)):
+            if b["succ"][k] is not None:
                 tgt = b["succ"][k]
                 # the quote test that opens a literal: the target is not yet in a loop that contains the test itself... take the
                 # one whose target block writes before any further test of the cursor (the opening quote is copied)
